@@ -5,6 +5,7 @@ from vlib.cfg import cfg_of, node_calls, node_exprs, stmt_may_raise
 from vlib.flow import dominators, Explorer, states_at
 from vlib import prov, q, shape
 from vlib.locks import ClassLocks
+from rules import common
 
 META = {
     "explanation": (
@@ -191,10 +192,10 @@ def check(ck):
     g = cfg_of(fenq)
     d = dominators(g)
     stc = [n for n in g.live_nodes() for c in node_calls(n) if dump(c.func) == "self.__start_thread"]
-    puts = [n for n in g.live_nodes() for c in node_calls(n) if dump(c.func) == "self._queue.put"]
+    puts = [n for n in g.live_nodes() for c in node_calls(n) if dump(c.func) in common.QUEUE_PUTS]
     incp = [n for n in g.live_nodes() if n.kind == "stmt" and isinstance(n.ast, ast.AugAssign) and dump(n.ast.target) == "self.__nb_pending_task"
             and isinstance(n.ast.op, ast.Add)]        # (a compensating `-= 1` on a failure path is examined by C10.7b)
-    if len(stc) != 1 or len(puts) != 1 or len(incp) != 1:
+    if len(stc) != 1 or len(puts) < 1 or len(incp) != 1:
         raise AnalysisError("anchor vanished: put / pending increment / __start_thread in enqueue")
     guards = [(g.nodes[i], norm_cmp(g.nodes[i].test, g.nodes[i].polarity)) for i in d[stc[0].id] if g.nodes[i].kind == "branch"]
     # `pending > threads`; `pending >= threads` only starts a worker earlier (the bound is enforced in __start_thread)
@@ -205,11 +206,11 @@ def check(ck):
     for b in okk:
         ck.require("__lock" in cl.held(fenq, b) and "__lock" in cl.held(fenq, stc[0]), "C10.3", "%s: growth decision under the lock" % q.fn(fenq),
                    "inside `with self.__lock`", "the growth decision is taken outside the pool lock", q.loc(fenq, b))
-        ck.require(incp[0].id in d[b.id] and puts[0].id in d[incp[0].id], "C10.3", "%s: put -> pending += 1 -> growth test" % q.fn(fenq),
+        ck.require(incp[0].id in d[b.id] and common.must_pass(g, incp[0].id, [p_.id for p_ in puts]), "C10.3", "%s: put -> pending += 1 -> growth test" % q.fn(fenq),
                    "ordered by dominance", "the growth test does not follow the put and the pending increment: the task is counted (and the "
                    "decision whether a worker is needed taken) before it is in the queue, so a worker that evaluates its retirement in "
                    "between sees an empty queue and leaves - the task then waits for a worker nobody starts", q.loc(fenq, b))
-        same_cs = bool(puts[0].withs) and puts[0].withs == incp[0].withs == b.withs
+        same_cs = all(bool(p_.withs) and p_.withs == incp[0].withs == b.withs for p_ in puts)
         ck.require(same_cs, "C10.3", "%s: put, count and growth decision in one critical section" % q.fn(fenq), "same `with self.__lock`",
                    "the put, the pending increment and the growth decision are not made in one critical section of the pool lock: a worker's "
                    "retirement test (queue size against idle workers, under that lock) can run between them", q.loc(fenq, puts[0]))
@@ -431,7 +432,8 @@ def check(ck):
                                q.loc(fi, n))
                 elif isinstance(n.ast.op, ast.Add):
                     dd_ = dominators(gg)
-                    puts_ = [m for m in gg.live_nodes() for c in node_calls(m) if dump(c.func) == "self._queue.put" and m.id in dd_[n.id]]
+                    puts_all = [m for m in gg.live_nodes() for c in node_calls(m) if dump(c.func) in common.QUEUE_PUTS]
+                    puts_ = puts_all if puts_all and common.must_pass(gg, n.id, [m.id for m in puts_all]) else []
                     in_start = fi.name == "start"
                     ck.require(bool(puts_) or in_start, "C10.7b", "%s: `%s`" % (q.fn(fi), q.stmt_text(n)), "one increment per queued task",
                                "the pending-task counter is incremented without a task having been queued", q.loc(fi, n))
@@ -515,7 +517,7 @@ def check(ck):
     genq = cfg_of(fenq)
     from vlib.flow import postdominators, NORMAL
     pdq = postdominators(genq, [genq.return_exit.id], NORMAL)
-    puts_q = [m for m in genq.live_nodes() for c in node_calls(m) if dump(c.func) == "self._queue.put"]
+    puts_q = [m for m in genq.live_nodes() for c in node_calls(m) if dump(c.func) in common.QUEUE_PUTS]
     incs_q = [m for m in genq.live_nodes() if m.kind == "stmt" and isinstance(m.ast, ast.AugAssign) and dump(m.ast.target) == "self.__nb_pending_task"
               and isinstance(m.ast.op, ast.Add)]
     if not puts_q:
@@ -577,7 +579,6 @@ def check(ck):
                    "nb_threads > min_threads", "an idle worker can retire although no more than min_threads workers exist (guards %s)" % [x for x in gs if x], q.loc(frun, rn))
 
     # ---- C10.8 the worker's containment handler cannot raise on user objects ---------------------------------------------
-    from rules import common
     common.check_inert_handlers(ck, "C10.8", scopes=("worker",))
     ck.floor("C10.8", 2)
 
